@@ -120,6 +120,14 @@ CLAIMED["C07"] = (
     "Trusted: Lean kernel + propext/Classical.choice/Quot.sound; grep -F -e keeps exactly the lines containing some pattern (checked against /usr/bin/grep on every generated file); lines <= MAX_LINE_LENGTH; the component graph is fixed during a history; FILTERS key order compared sorted (theorems quantify over every order); acyclicity certificate rankedBy checked by the driver; harness/c07.py.",
     "DESIGN.md §6 C07")
 
+CLAIMED["C14"] = (
+    "Lean 4 model of CommandParser.__init__/validate_lines, JSONParser/YAMLParser.parse_content, TextFileOutput.get/__contains__ and LogFileOutput.get_after incl. the year-inference calendar arithmetic; libraries are parameters; bad-line lists regenerated from the live class on every run; correspondence over real subclasses through context_wrap",
+    "Proof (all inputs, every instantiation of lower / loads / stamp): the rejection iff (command_reject_iff) and unchanged pass-through; the three-outcome JSON and YAML contracts with start-line and noise handling; get = filter with first-n / last-n in original order; get_after = owner-stamp >= threshold over the filtered lines "
+    "with ValueError / TypeError iffs; year inference total, characterised, and correct within 34 days or within the same year and 330 days. FALSE of the code with witnesses proved and replayed (known findings): JSON scalars are accepted; a noise line starting with [ or { breaks the JSON parse; a yearless Feb 29 raises. "
+    "Tied: ~24k comparisons per quick run across 7 streams (command, json, yaml, get/in/scanners, get_after over 12 time formats, string primitives, corpus).",
+    "Trusted: Lean kernel + propext/Classical.choice/Quot.sound; translate/badlines.py; harness/c14.py (generators, canonicalisers, the oracle's reference phrases); json.loads, yaml.load, the format-derived timestamp regex + strptime field extraction and str.lower beyond ASCII are parameters (per-line time fields supplied by the generator, validated by get_after agreement).",
+    "DESIGN.md §6 C14")
+
 PENDING_REASON = "check not built yet in this round (planned: DESIGN.md §6); no claim is made until its model, theorems and correspondence run exist"
 
 
